@@ -1594,6 +1594,7 @@ pub fn cyclic_corpus() -> Vec<(&'static str, Graph)> {
 // input contexts
 
 fn eval_text(text: &str) -> Value {
+  crate::util::note_case(text);
   let s = Scope::default();
   match dmntk_feel_parser::parse_expression(&s, text, false).ok().and_then(|n| dmntk_feel_evaluator::evaluate(&s, &n).ok()) {
     Some(v) => v,
